@@ -43,6 +43,8 @@ var (
 	threshold = new(big.Int).Div(new(big.Int).Lsh(big.NewInt(1), 33), big.NewInt(3)) // floor(2^33/3)
 )
 
+var gapReported, gapSentReported bool
+
 func valAddr(i int) sdk.ValAddress {
 	b := make([]byte, 20)
 	b[0] = 0xC1
@@ -213,6 +215,12 @@ func doTransform(run *emit.Run, a *addrReg, r *rand.Rand, tc tcase, tag string) 
 	}
 	if enough != (sum.Cmp(threshold) >= 0) {
 		run.Violate("C10:quorum-gate", fmt.Sprintf("isEnoughToReachConsensus=%v but powers sum to %s (threshold %s)", enough, sum, threshold), replay)
+	}
+	if enough && !gapReported && new(big.Int).Mul(sum, big.NewInt(3)).Cmp(new(big.Int).Lsh(big.NewInt(1), 33)) < 0 {
+		gapReported = true // once per run: the violation list is capped and must stay free for unlisted ones
+		// listed as a known finding: the integer threshold floor(2^33/3) admits a sum that is 2/3 of a
+		// unit below the real number 2/3 * 2^32 (theorem quorum_constant_exact)
+		run.Violate("C10:quorum-floor-gap", fmt.Sprintf("powers sum to %s = thresholdForConsensus: accepted although 3*sum = 2^33-2 < 2*2^32", sum), replay)
 	}
 	if enough {
 		run.Count("transform-enough", "yes")
@@ -650,6 +658,10 @@ func (e *env) observe(run *emit.Run, a *addrReg, hist *[]string, sent []sentMsg)
 		}
 		if sum.Cmp(threshold) < 0 {
 			run.Violate("C10:sent-without-quorum", fmt.Sprintf("valset %d sent to chain-%d with powers summing to %s < %s", m.ID, m.Chain, sum, threshold), replay())
+		}
+		if sum.Cmp(threshold) == 0 && !gapSentReported {
+			gapSentReported = true
+			run.Violate("C10:quorum-floor-gap", fmt.Sprintf("valset %d sent to chain-%d with powers summing to exactly %s: 3*sum = 2^33-2 < 2*2^32", m.ID, m.Chain, sum), replay())
 		}
 		if sum.Cmp(two32) > 0 {
 			run.Violate("C10:power-sum-above-2p32", fmt.Sprintf("valset %d sent to chain-%d with powers summing to %s > 2^32", m.ID, m.Chain, sum), replay())
